@@ -139,8 +139,13 @@ def check_one(ctx, lib, rng, par, attrs, kind, case):
                 text = fh.read()
             ref0 = c10.ref_export(recorded, ch, 0, None, None, None, dict)
             exp_text = json.dumps(ref0, **jopts)
-            if text != exp_text and text == exporter.export(nodes[0]) and c10.deep_eq(c10._plain(json.loads(text)), c10._plain(json.loads(exp_text))):
-                exp_text = text  # same content, only the (unspecified) key order of plain dicts differs
+            if text != exp_text and text == exporter.export(nodes[0]):
+                try:
+                    same = c10.deep_eq(c10._plain(json.loads(text)), c10._plain(json.loads(exp_text)))
+                except ValueError:
+                    same = False
+                if same:
+                    exp_text = text  # same content, only the (unspecified) key order of plain dicts differs
             if text != exp_text:
                 ctx.violation("C11/write/file", "write-equals-export", dict(case, json_opts=repr(jopts)), expected=exp_text[:400], observed=text[:400])
                 return False
